@@ -20,6 +20,8 @@ import Mcp.Gen.ReaderFacts
 namespace Mcp.Props.C07
 open Mcp.Str Mcp.Json Mcp.Readers
 
+private theorem C07_fact_id_key_aux : idKeyToday = true := by decide
+
 /-! ## 1. JSON body -/
 
 /-- The JSON-body reader is a total function of (status, body); it hands a result to the caller only for status 200 and a
@@ -54,6 +56,28 @@ theorem C07_total_json (status : Nat) (body : Payload) (h : (jsonBody status bod
 example : (jsonBody 200 ⟨true, none, false⟩).isOk = false ∧ (jsonBody 200 ⟨true, some (.arr []), false⟩).isOk = false ∧
     (jsonBody 500 (payloadOf (wfResult 2 (.obj [])))).isOk = false ∧ (jsonBody 200 (payloadOf (wfResult 2 (.obj [])))).isOk = true := by
   decide
+
+/-- the readers hand a well-formed answer's `result` over UNOPENED, whatever it holds (a tools array whose schema documents
+    refer to themselves, nest 1000 levels deep or carry wrongly typed keywords, …): the JSON-body reader, the POST-SSE reader
+    (no handler registered: the call returns at once) and, on the two shared streams, the delivery to the pending call.  What
+    the list decoder then does with such a result is tied by the differential run only (tool-schema cases: the call returns
+    the answer's cursor, the process survives, the next call completes). -/
+theorem C07_result_opaque (req : Nat) (r : Json) (F : Facts) (hF : F.stdioOnError = .resync) :
+    jsonBody 200 (payloadOf (wfResult req r)) = .ok r ∧
+    (postCall req [] [dataLine (wfResult req r) 0, blankLine] .eof).isOk = true ∧
+    ((legRun F { tbl := Table.init [req], latch := true } (legEvent (wfResult req r) 0)).tbl.got req).isSome = true ∧
+    ((stdioRun F [] { tbl := Table.init [req] } [.value (wfResult req r)]).tbl.got req).isSome = true := by
+  have hid : idMatches req (.int (req : Int)) = true := by
+    have := C07_fact_id_key_aux
+    simp [idMatches, idMatchesK, this]
+  refine ⟨?_, ?_, ?_, ?_⟩
+  · simp [jsonBody, payloadOf, wfResult, outOfResponse, hasKey, lookup]
+  · simp [postCall, postRun, postStep, postData, postAddressed, postReceived, postFinish, dataLine, blankLine, payloadOf, wfResult,
+      hasKey, lookup, hid, CallOut.isOk]
+  · simp [legRun, legStep, legEvent, eventLine, dataLine, blankLine, payloadOf, legDispatch, legMessage, wfResult, hasKey, lookup,
+      idOf, hid, Table.deliver, Table.init, outOfResponse]
+  · simp [stdioRun, stdioStep, hF, stdioLineStep, stdioValue, msgType, wfResult, lookupStr?, hasKey, lookup, idOf, keyIs, idInt64,
+      Table.deliver, Table.init]
 
 /-! ## 2. POST-SSE (one call's own stream) -/
 
